@@ -61,6 +61,7 @@ STRENGTHENED = {
     "C02-11": "gen: the long key's length is drawn around the largest key whose delete / empty-valued put still fits one log record (32747..32758), not only far beyond it",
     "C07-11": "C07: 'shared' transaction steps (a second goroutine works on the SAME transaction object - gets, puts, deletes, scans - while the body runs, joined before the finish)",
     "C12-12": "C12 component sub-check: now and then a level of two digits (10-12) holds files (level numbers are not zero-padded in file names)",
+    "C04-12": "drive: after SeekToLast inside a generated transaction, Next must end the iteration (C04 sequential sub-check, C01)",
     "C13-4": "C13: real Replica state machine with injected transient apply failures (error state -> recovery -> new stream)",
     "C15-4": "C15: primary with a pre-history (older log files in the directory) so that the ack path's retention pass has work to do",
 }
